@@ -65,6 +65,7 @@ type c03Outcome struct {
 	closeCall  int // len(Net.Datagrams) when Close() was called / returned (UDP)
 	closeRet   int
 	closeRetAt time.Duration
+	closeTook  time.Duration
 	elapsed    time.Duration
 	world      *sim.World
 }
@@ -250,9 +251,11 @@ func c03Exec(k c03Case) *c03Outcome {
 			o.WriteErr = err.Error()
 		}
 		o.closeCall = nDatagrams()
+		tc := time.Now()
 		if err := conn.Close(); err != nil {
 			o.CloseErr = err.Error()
 		}
+		o.closeTook = time.Since(tc)
 		closeReturned.Store(true)
 		o.closeRet = nDatagrams()
 		o.closeRetAt = time.Since(w.Net.T0())
@@ -552,9 +555,12 @@ func c03Run(c *core.Ctx, k c03Case) {
 			case len(wa.LostBefore) > 0:
 				fk = "C03/udp/data-lost-or-overtaken-before-close"
 				detail = fmt.Sprintf("; segments %v of the closing direction were transmitted but had not reached the reader when the close request did", wa.LostBefore)
-			case wa.UnsentBytes > 0:
+			case wa.UnsentBytes > 0 && o.closeTook >= 900*time.Millisecond:
 				fk = "C03/udp/data-discarded-unsent-at-close"
-				detail = fmt.Sprintf("; %d bytes of d were never transmitted (discarded from the send queue at close), nothing was lost or reordered", wa.UnsentBytes)
+				detail = fmt.Sprintf("; %d bytes of d were never transmitted: Close() took %v (its bounded wait of 1000 x 1 ms expired), wrote the close request out directly and discarded the send queue; nothing was lost or reordered", wa.UnsentBytes, o.closeTook.Round(time.Millisecond))
+			case wa.UnsentBytes > 0:
+				fk = "C03/udp/data-discarded-unsent-at-close-without-waiting"
+				detail = fmt.Sprintf("; %d bytes of d were never transmitted although Close() returned after only %v; nothing was lost or reordered", wa.UnsentBytes, o.closeTook.Round(time.Millisecond))
 			default:
 				fk = "C03/udp/clean-eof-after-prefix-without-loss"
 				detail = "; every transmitted segment reached the reader before the close request"
